@@ -19,6 +19,9 @@
 #include "reftable-writer.h"
 #include "reftable-error.h"
 #include "reftable-record.h"
+#include "reftable-merged.h"
+#include "reftable-stack.h"
+#include "stack.h"
 
 struct shim_out {
 	uint8_t *p;
@@ -238,6 +241,66 @@ static ssize_t shim_write_cb(void *arg, const void *data, size_t sz)
 	return strbuf_add((struct strbuf *)arg, data, sz);
 }
 
+/* add_records: feed a canonical record stream to a writer. With fix_index
+ * every record gets that update index instead of the one in the stream. */
+static int add_records(struct reftable_writer *w, struct shim_in *in,
+		       int hash_size, int fix, uint64_t fix_index)
+{
+	int err = 0;
+	while (in->pos < in->n && !in->bad && err == 0) {
+		uint8_t typ = (uint8_t)in_uint(in, 1);
+		if (typ == 'R') {
+			struct reftable_ref_record ref = { 0 };
+			ref.refname = in_str(in);
+			ref.update_index = in_uint(in, 8);
+			if (fix)
+				ref.update_index = fix_index;
+			ref.value_type = (int)in_uint(in, 1);
+			switch (ref.value_type) {
+			case REFTABLE_REF_VAL1:
+				ref.value.val1 = in_hash(in, hash_size);
+				break;
+			case REFTABLE_REF_VAL2:
+				ref.value.val2.value = in_hash(in, hash_size);
+				ref.value.val2.target_value = in_hash(in, hash_size);
+				break;
+			case REFTABLE_REF_SYMREF:
+				ref.value.symref = in_str(in);
+				break;
+			default:
+				break;
+			}
+			if (!in->bad)
+				err = reftable_writer_add_ref(w, &ref);
+			reftable_ref_record_release(&ref);
+		} else if (typ == 'L') {
+			struct reftable_log_record log = { 0 };
+			log.refname = in_str(in);
+			log.update_index = in_uint(in, 8);
+			if (fix)
+				log.update_index = fix_index;
+			log.value_type = (int)in_uint(in, 1);
+			if (log.value_type == REFTABLE_LOG_UPDATE) {
+				log.value.update.new_hash = in_hash(in, hash_size);
+				log.value.update.old_hash = in_hash(in, hash_size);
+				log.value.update.name = in_str(in);
+				log.value.update.email = in_str(in);
+				log.value.update.time = in_uint(in, 8);
+				log.value.update.tz_offset = (int16_t)in_uint(in, 2);
+				log.value.update.message = in_str(in);
+			}
+			if (!in->bad)
+				err = reftable_writer_add_log(w, &log);
+			reftable_log_record_release(&log);
+		} else {
+			in->bad = 1;
+		}
+	}
+	if (in->bad)
+		err = REFTABLE_API_ERROR;
+	return err;
+}
+
 /* shim_write: write a table with the C writer from a canonical record stream
  * (refs first, then logs, each in key order) and copy the table to out.
  * flags: 1 unpadded, 2 skip_index_objects, 4 exact_log_message, 8 sha256.
@@ -263,53 +326,7 @@ int64_t shim_write(const uint8_t *desc, uint64_t dlen, uint32_t block_size,
 		opts.hash_id = 0x73323536;
 	w = reftable_new_writer(&shim_write_cb, &buf, &opts);
 	reftable_writer_set_limits(w, min, max);
-	while (in.pos < in.n && !in.bad && err == 0) {
-		uint8_t typ = (uint8_t)in_uint(&in, 1);
-		if (typ == 'R') {
-			struct reftable_ref_record ref = { 0 };
-			ref.refname = in_str(&in);
-			ref.update_index = in_uint(&in, 8);
-			ref.value_type = (int)in_uint(&in, 1);
-			switch (ref.value_type) {
-			case REFTABLE_REF_VAL1:
-				ref.value.val1 = in_hash(&in, hash_size);
-				break;
-			case REFTABLE_REF_VAL2:
-				ref.value.val2.value = in_hash(&in, hash_size);
-				ref.value.val2.target_value = in_hash(&in, hash_size);
-				break;
-			case REFTABLE_REF_SYMREF:
-				ref.value.symref = in_str(&in);
-				break;
-			default:
-				break;
-			}
-			if (!in.bad)
-				err = reftable_writer_add_ref(w, &ref);
-			reftable_ref_record_release(&ref);
-		} else if (typ == 'L') {
-			struct reftable_log_record log = { 0 };
-			log.refname = in_str(&in);
-			log.update_index = in_uint(&in, 8);
-			log.value_type = (int)in_uint(&in, 1);
-			if (log.value_type == REFTABLE_LOG_UPDATE) {
-				log.value.update.new_hash = in_hash(&in, hash_size);
-				log.value.update.old_hash = in_hash(&in, hash_size);
-				log.value.update.name = in_str(&in);
-				log.value.update.email = in_str(&in);
-				log.value.update.time = in_uint(&in, 8);
-				log.value.update.tz_offset = (int16_t)in_uint(&in, 2);
-				log.value.update.message = in_str(&in);
-			}
-			if (!in.bad)
-				err = reftable_writer_add_log(w, &log);
-			reftable_log_record_release(&log);
-		} else {
-			in.bad = 1;
-		}
-	}
-	if (in.bad)
-		err = REFTABLE_API_ERROR;
+	err = add_records(w, &in, hash_size, 0, 0);
 	if (err == 0)
 		err = reftable_writer_close(w);
 	reftable_writer_free(w);
@@ -322,4 +339,129 @@ int64_t shim_write(const uint8_t *desc, uint64_t dlen, uint32_t block_size,
 	}
 	strbuf_release(&buf);
 	return res;
+}
+
+static void shim_stack_options(struct reftable_write_options *opts, int flags,
+			       uint32_t block_size)
+{
+	opts->unpadded = (flags & 1) != 0;
+	opts->skip_index_objects = (flags & 2) != 0;
+	opts->exact_log_message = (flags & 4) != 0;
+	opts->block_size = block_size;
+	if (flags & 8)
+		opts->hash_id = 0x73323536;
+}
+
+/* shim_stack_scan: open the stack directory with the C stack and dump its
+ * merged view: mode 0 the refs from seek_ref(arg), mode 1 the logs from
+ * seek_log_at(arg, idx). */
+int64_t shim_stack_scan(const char *dir, int flags, int mode, const uint8_t *arg,
+			uint64_t idx, uint8_t *out, uint64_t cap)
+{
+	struct reftable_write_options opts = { 0 };
+	struct reftable_stack *st = NULL;
+	struct reftable_merged_table *mt;
+	struct reftable_iterator it = { 0 };
+	struct shim_out o = { out, 0, cap };
+	int hash_size = (flags & 8) ? 32 : 20;
+	int err;
+
+	shim_stack_options(&opts, flags, 0);
+	err = reftable_new_stack(&st, dir, opts);
+	if (err < 0)
+		goto done;
+	mt = reftable_stack_merged_table(st);
+	out_u8(&o, 'H');
+	out_u64(&o, reftable_merged_table_min_update_index(mt));
+	out_u64(&o, reftable_merged_table_max_update_index(mt));
+	if (mode == 1)
+		err = reftable_merged_table_seek_log_at(mt, &it, (const char *)arg, idx);
+	else
+		err = reftable_merged_table_seek_ref(mt, &it, (const char *)arg);
+	if (err < 0)
+		goto done;
+	while (1) {
+		if (mode == 1) {
+			struct reftable_log_record log = { 0 };
+			err = reftable_iterator_next_log(&it, &log);
+			if (err == 0)
+				out_log(&o, &log, hash_size);
+			reftable_log_record_release(&log);
+		} else {
+			struct reftable_ref_record ref = { 0 };
+			err = reftable_iterator_next_ref(&it, &ref);
+			if (err == 0)
+				out_ref(&o, &ref, hash_size);
+			reftable_ref_record_release(&ref);
+		}
+		if (err != 0)
+			break;
+	}
+	if (err > 0)
+		err = 0;
+done:
+	out_u8(&o, 'E');
+	out_u32(&o, (uint32_t)err);
+	reftable_iterator_destroy(&it);
+	if (st)
+		reftable_stack_destroy(st);
+	return (int64_t)o.n;
+}
+
+struct shim_add_arg {
+	struct shim_in in;
+	int hash_size;
+	uint64_t index;
+};
+
+static int shim_add_cb(struct reftable_writer *wr, void *varg)
+{
+	struct shim_add_arg *a = varg;
+	reftable_writer_set_limits(wr, a->index, a->index);
+	a->in.pos = 0;
+	return add_records(wr, &a->in, a->hash_size, 1, a->index);
+}
+
+/* shim_stack_op: open the stack directory with the C stack, run one operation
+ * and close it again.
+ *   op 0: add one table holding the records of desc, all at the stack's next
+ *         update index (no automatic compaction)
+ *   op 1: the same, followed by the automatic compaction of reftable_stack_add
+ *   op 2: reftable_stack_compact_all
+ *   op 3: reftable_stack_auto_compact
+ *   op 4: reftable_stack_clean
+ * Returns the operation's result. */
+int64_t shim_stack_op(const char *dir, int flags, uint32_t block_size, int op,
+		      const uint8_t *desc, uint64_t dlen)
+{
+	struct reftable_write_options opts = { 0 };
+	struct reftable_stack *st = NULL;
+	int err;
+
+	shim_stack_options(&opts, flags, block_size);
+	err = reftable_new_stack(&st, dir, opts);
+	if (err < 0)
+		return err;
+	switch (op) {
+	case 0:
+	case 1: {
+		struct shim_add_arg a = { { desc, dlen, 0, 0 },
+					  (flags & 8) ? 32 : 20, 0 };
+		st->disable_auto_compact = (op == 0);
+		a.index = reftable_stack_next_update_index(st);
+		err = reftable_stack_add(st, &shim_add_cb, &a);
+		break;
+	}
+	case 2:
+		err = reftable_stack_compact_all(st, NULL);
+		break;
+	case 3:
+		err = reftable_stack_auto_compact(st);
+		break;
+	default:
+		err = reftable_stack_clean(st);
+		break;
+	}
+	reftable_stack_destroy(st);
+	return err;
 }
